@@ -1,0 +1,40 @@
+//go:build verif
+// +build verif
+
+package policy
+
+import (
+	"k8s.io/client-go/kubernetes"
+	corev1Lister "k8s.io/client-go/listers/core/v1"
+	networkingv1Lister "k8s.io/client-go/listers/networking/v1"
+	"k8s.io/client-go/tools/cache"
+	"tkestack.io/galaxy/pkg/utils/ipset"
+	utiliptables "tkestack.io/galaxy/pkg/utils/iptables"
+)
+
+// This file is only compiled with the `verif` build tag. It adds no behaviour: a constructor that takes the ipset and
+// iptables handles and the listers instead of building exec-backed handles and informers.
+
+type verifSyncedInformer struct {
+	cache.SharedIndexInformer
+}
+
+func (verifSyncedInformer) HasSynced() bool { return true }
+
+// NewVerif creates a PolicyManager over the given handles and listers; the pod informer counts as started and synced.
+func NewVerif(client kubernetes.Interface, ipsetHandle ipset.Interface, iptableHandle utiliptables.Interface, hostName string,
+	podLister corev1Lister.PodLister, namespaceLister corev1Lister.NamespaceLister,
+	policyLister networkingv1Lister.NetworkPolicyLister) *PolicyManager {
+	pm := &PolicyManager{
+		client:            client,
+		ipsetHandle:       ipsetHandle,
+		iptableHandle:     iptableHandle,
+		hostName:          hostName,
+		podLister:         podLister,
+		namespaceLister:   namespaceLister,
+		policyLister:      policyLister,
+		podCachedInformer: verifSyncedInformer{},
+	}
+	pm.podInformerOnce.Do(func() {})
+	return pm
+}
